@@ -191,6 +191,12 @@ def stage_b_sim(ctx, front, cfgp, label, num, depth, devs=(), vmap=None, report_
 # ---------------------------------------------------------------- random schedules (stage C)
 
 NAMES = [['a'], ['a', 'b'], ['a', 'b', 'c'], ['a', 'c'], ['b'], ['a', 'b', 'd']]
+# names ending in "P": <base>/<ParametersSha256Digest> - Interests expressed with ApplicationParameters (see pitkit.uri)
+ALLN = NAMES + [['a', 'P'], ['a', 'b', 'P']]
+
+
+def pick_name(rng):
+    return rng.choice(ALLN[len(NAMES):]) if rng.random() < 0.12 else rng.choice(NAMES)
 
 
 def next_timer(entries, unfinished, now):
@@ -246,12 +252,12 @@ def random_schedule(rng, front, n_events, weights=None, junk=None, verdicts=None
                 choices.append('Await')
             a = rng.choices(choices, [w.get('Express' if c == 'ExpressDown' else c, 1) for c in choices])[0]
             if a in ('Express', 'ExpressDown'):
-                name = rng.choice(NAMES)
+                name = pick_name(rng)
                 dig = 0
                 cbp = rng.random() < 0.4
-                if rng.random() < 0.15:
+                if rng.random() < 0.15 and name[-1] != 'P':
                     # CanBePrefix together with an implicit digest still names one packet
-                    dig = rng.choice([1, 2]) + 10 * NAMES.index(name)
+                    dig = rng.choice([1, 2]) + 10 * ALLN.index(name)
                 # 400 ticks = 4000 ms: the lifetime is not given at all and the default applies
                 t = {'name': name, 'cbp': cbp, 'dig': dig, 'life': rng.choice([1, 1, 2, 3, 1, 2, 3, pitkit.DEFAULT_LIFE])}
                 if a == 'Express':
@@ -260,8 +266,8 @@ def random_schedule(rng, front, n_events, weights=None, junk=None, verdicts=None
                 else:
                     emit({'a': a, 't': t})
             elif a == 'RecvData':
-                name = rng.choice(NAMES)
-                d = {'name': name, 'id': rng.choice([1, 2]) + 10 * NAMES.index(name)}
+                name = pick_name(rng)
+                d = {'name': name, 'id': rng.choice([1, 2]) + 10 * ALLN.index(name)}
                 # sometimes the caller cancels an Interest in the very instant the packet is processed
                 x = [rng.choice(unfinished) + 1] if unfinished and rng.random() < race_p else []
                 emit({'a': a, 'd': d, 'env': rng.choice(envs), 'x': x})
@@ -269,7 +275,7 @@ def random_schedule(rng, front, n_events, weights=None, junk=None, verdicts=None
                 if entries and rng.random() < 0.8:
                     t = rng.choice(entries)['t']
                 else:
-                    t = {'name': rng.choice(NAMES), 'cbp': False, 'dig': 0, 'life': 1}
+                    t = {'name': pick_name(rng), 'cbp': False, 'dig': 0, 'life': 1}
                 x = [rng.choice(unfinished) + 1] if unfinished and rng.random() < race_p else []
                 emit({'a': a, 't': t, 'r': rng.randint(1, 5), 'env': rng.choice(['lp', 'lph', 'lpo']), 'x': x})
             elif a == 'RecvJunk':
